@@ -10,7 +10,8 @@ From RU Require Import Base.Prelude Base.Utf8 Model.AsciiSet Gen.Tables Model.Pe
   Model.HostT Model.UrlRecord Model.Parser Model.WF Model.Cost Model.UnsafeSites.
 From RU Require Base.U32_c13 Base.Outcome_c15 Model.Punycode Model.FormUrlencoded Model.Base64 Model.Mime
   Model.Host Model.Setters Model.Uts46 Model.FilePath Model.Origin.
-From RU Require Proofs.C04_Inventory Proofs.C04_Cost Proofs.C04_CostPath Proofs.C04_Parse Proofs.C04_Utf8
+From RU Require Proofs.C04_Inventory Proofs.C04_Cost Proofs.C04_CostPath Proofs.C04_Parse Proofs.C04_PathTotal
+  Proofs.C04_ParseTotal Proofs.C04_PathFile Proofs.C04_ParseFile Proofs.C06_List Proofs.C04_Utf8
   Proofs.C04_NoPanic Proofs.C04_Puny Proofs.C13_Known Proofs.C15_Main Proofs.C15_Ser Proofs.C09_Reject
   Proofs.C06_Main Proofs.C03_WF Proofs.C02_PathL1 Proofs.Idna_Api Proofs.Idna_Hyp Proofs.Idna_Known.
 From RU Require Properties.C03 Properties.C06 Properties.C09 Properties.C10 Properties.C11 Properties.C13
@@ -277,6 +278,110 @@ Check C04_no_panic_authority_states : forall hp hpo hd ctx st se ser l,
   parse_userinfo st ser l <> PPanic /\ parse_host_and_port hp hpo hd ctx st se ser l <> PPanic.
 Print Assumptions C04_no_panic_authority_states.
 
+(* proved (Proofs/C04_ParseTotal.v): the WHOLE domain of the full statement except for one point where the
+   full statement is false (next theorem).  Every input - the scalar-value hypothesis is not needed -,
+   with or without base, any scheme outside the file class known_c04_7, any host functions, both
+   configurations: parse_url reaches none of its panic sites (pop_path's unwrap, the debug_assert! and the
+   slice of the path state, the debug_assert!s of parse_with_scheme / parse_relative, the unwrap of
+   parse_userinfo, the assert!s of with_query_and_fragment, the panic! of parse_query_and_fragment, the
+   unwrap of cannot_be_a_base).  This covers: (a) non-special scheme followed by "//" (userinfo, host and
+   port, path behind an authority), (b) the special non-file schemes ('\' as a separator, any number of
+   leading slashes, default ports), (c) every relative reference (empty, fragment-only, query-only,
+   scheme-relative, path-absolute, path-relative with pop_path / shorten_path; also "http:rel" against a
+   base of the same special scheme) against a base b with base_ok b = true, i.e. wf_b b and, when the
+   scheme of b is special, the byte behind "scheme:" is '/' (b is not cannot-be-a-base - true of every
+   special URL the parser produces).  Still missing w.r.t. the intent of the full statement: only the file
+   class (F-C04-7 is a real panic there). *)
+Theorem C04_parse_no_panic_partial2 : forall dbg hp hpo hd ovr base input,
+  (match base with Some b => C04_ParseTotal.base_ok b = true | None => True end) ->
+  known_c04_7 base input = false ->
+  parse_url dbg hp hpo hd ovr base input <> PPanic.
+Proof. exact C04_ParseTotal.parse_url_ok. Qed.
+Check C04_parse_no_panic_partial2 : forall dbg hp hpo hd ovr base input,
+  (match base with Some b => C04_ParseTotal.base_ok b = true | None => True end) ->
+  known_c04_7 base input = false ->
+  parse_url dbg hp hpo hd ovr base input <> PPanic.
+Print Assumptions C04_parse_no_panic_partial2.
+
+(* the full statement as written is FALSE: wf_b does not say that a special URL has an authority.  The
+   record "http:x" (scheme_end 4, all other offsets 5, no host) satisfies wf_b; joining "http:y" with it
+   reaches the debug assertion of parse_with_scheme (debug builds) and pop_path's unwrap (release
+   builds), whatever the host functions.  The parser never produces such a record (special URLs always
+   get "//"); it can only come from Url::deserialize_internal in a release build, which skips
+   check_invariants.  base_ok is wf_b plus exactly the missing fact. *)
+Theorem C04_parse_no_panic_statement_refuted :
+  ~ C04_parse_no_panic_statement
+  /\ (usv_list C04_ParseTotal.cbb_special_ref /\ wf_b C04_ParseTotal.cbb_special_base = true
+      /\ known_c04_7 (Some C04_ParseTotal.cbb_special_base) C04_ParseTotal.cbb_special_ref = false
+      /\ C04_ParseTotal.base_ok C04_ParseTotal.cbb_special_base = false
+      /\ forall dbg hp hpo hd ovr,
+           parse_url dbg hp hpo hd ovr (Some C04_ParseTotal.cbb_special_base) C04_ParseTotal.cbb_special_ref = PPanic).
+Proof. exact (conj C04_ParseTotal.parse_statement_false C04_ParseTotal.cbb_special_witness). Qed.
+Check C04_parse_no_panic_statement_refuted :
+  ~ C04_parse_no_panic_statement
+  /\ (usv_list C04_ParseTotal.cbb_special_ref /\ wf_b C04_ParseTotal.cbb_special_base = true
+      /\ known_c04_7 (Some C04_ParseTotal.cbb_special_base) C04_ParseTotal.cbb_special_ref = false
+      /\ C04_ParseTotal.base_ok C04_ParseTotal.cbb_special_base = false
+      /\ forall dbg hp hpo hd ovr,
+           parse_url dbg hp hpo hd ovr (Some C04_ParseTotal.cbb_special_base) C04_ParseTotal.cbb_special_ref = PPanic).
+Print Assumptions C04_parse_no_panic_statement_refuted.
+
+(* the invariant behind it: for every scheme type other than file, any input, any serialization whose
+   byte in front of the current segment is '/' (seg_inv: path_start <= segment_start, ser[segment_start-1]
+   = '/'), the path state returns, keeps the first k <= min(segment_start, path_start + 1) bytes, keeps
+   has_host, and stops at the end or in front of '?' / '#' *)
+Theorem C04_path_state_total : forall dbg st ps k, st_is_file st = false -> k <= ps + 1 ->
+  forall l ser ss pend hh, C04_PathTotal.seg_inv ps k ser ss ->
+  exists s' rem, parse_path_loop dbg CUrlParser st ps l ser ss pend hh = POk (s', hh, rem)
+                 /\ C06_List.agree_pre k ser s' /\ C04_PathTotal.rem_ok rem.
+Proof. exact C04_PathTotal.loop_ok. Qed.
+Check C04_path_state_total : forall dbg st ps k, st_is_file st = false -> k <= ps + 1 ->
+  forall l ser ss pend hh, C04_PathTotal.seg_inv ps k ser ss ->
+  exists s' rem, parse_path_loop dbg CUrlParser st ps l ser ss pend hh = POk (s', hh, rem)
+                 /\ C06_List.agree_pre k ser s' /\ C04_PathTotal.rem_ok rem.
+Print Assumptions C04_path_state_total.
+
+(* the file class, narrowed (Proofs/C04_PathFile.v, C04_ParseFile.v): known_c04_7b is the part of
+   known_c04_7 in which there is a file base, the reference (after its optional "file:") starts with a
+   path segment - not '/', '\', '?', '#', not a drive letter - and shorten_path leaves a base text that
+   does not end in '/' (it refuses to remove a drive-letter-shaped last segment, or the base path is
+   empty, or it panics on a cannot-be-a-base record): there the first segment starts behind a byte that is
+   not '/' and a ".." fails the debug assertion (F-C04-7).  Everywhere else - file URLs without base, file
+   host state, one leading separator with the base's drive letter or host, '?', '#', drive-letter
+   references, and path-relative references against a base whose shortened path ends in '/' - parse_url
+   reaches no panic site.  The drive-letter quirks are covered: the loop arm that moves segment_start into
+   "C:/" (state bad_seg), the rewriting of "C|" into "C:", the refusals of pop_path / shorten_path.
+   GAP: inside known_c04_7b nothing is proved (the recogniser does not look at the first segment, so it
+   also contains harmless inputs such as "x" against file:///C:). *)
+Theorem C04_parse_no_panic_partial3 : forall dbg hp hpo hd ovr base input,
+  (match base with Some b => C04_ParseTotal.base_ok b = true | None => True end) ->
+  C04_ParseFile.known_c04_7b base input = false ->
+  parse_url dbg hp hpo hd ovr base input <> PPanic.
+Proof. exact C04_ParseFile.parse_url_ok3. Qed.
+Check C04_parse_no_panic_partial3 : forall dbg hp hpo hd ovr base input,
+  (match base with Some b => C04_ParseTotal.base_ok b = true | None => True end) ->
+  C04_ParseFile.known_c04_7b base input = false ->
+  parse_url dbg hp hpo hd ovr base input <> PPanic.
+Print Assumptions C04_parse_no_panic_partial3.
+
+(* known_c04_7b is a sub-class of known_c04_7 (so partial3 implies partial2), and the path state is total
+   for ANY scheme type from the two kinds of states seg_inv / bad_seg *)
+Theorem C04_known_7b_narrower : forall base input,
+  C04_ParseFile.known_c04_7b base input = true -> known_c04_7 base input = true.
+Proof. exact C04_ParseFile.known_7b_file_involved. Qed.
+Check C04_known_7b_narrower : forall base input,
+  C04_ParseFile.known_c04_7b base input = true -> known_c04_7 base input = true.
+Print Assumptions C04_known_7b_narrower.
+
+Theorem C04_path_state_total_any : forall dbg st ps k, k <= ps + 1 ->
+  forall l ser ss pend hh, C04_PathFile.path_inv ps k ser ss ->
+  C04_PathFile.path_res st ps k ser (parse_path_loop dbg CUrlParser st ps l ser ss pend hh).
+Proof. exact C04_PathFile.loop_any. Qed.
+Check C04_path_state_total_any : forall dbg st ps k, k <= ps + 1 ->
+  forall l ser ss pend hh, C04_PathFile.path_inv ps k ser ss ->
+  C04_PathFile.path_res st ps k ser (parse_path_loop dbg CUrlParser st ps l ser ss pend hh).
+Print Assumptions C04_path_state_total_any.
+
 (* finding F-C04-7: a file: base whose last segment looks like a drive letter, joined with "../x":
    the debug assertion of the path state fails (PPanic with debug assertions, a URL without) *)
 Definition toy_hp (s : list N) : result host := Ok (HDomain s).
@@ -525,3 +630,38 @@ Example C04_premises_hold :
   /\ decode_c [37; 52; 49; 37; 37; 122] = ([65; 37; 37; 122], 8)
   /\ snd (parse_path_loop_c true CUrlParser STNotSpecial 2 (C04_CostPath.dotdots 3) [97; 58; 47] 3 [] false) = 49.
 Proof. vm_compute. repeat split; reflexivity. Qed.
+
+(* the hypotheses of C04_parse_no_panic_partial2 hold of a parsed special base and a "../x" reference (and
+   of a non-special URL with authority without base); the invariant of C04_path_state_total holds of the
+   serialization "a://h/" with the segment behind the last '/' *)
+Example C04_partial2_premises_hold :
+  (exists b, parse_url true toy_hp toy_hp toy_hd None None [104;116;116;112;58;47;47;104;47;97;47;98;63;113] = POk b
+             /\ C04_ParseTotal.base_ok b = true /\ known_c04_7 (Some b) w_c04_7_ref = false
+             /\ parse_url true toy_hp toy_hp toy_hd None (Some b) w_c04_7_ref
+                = POk (mkUrl [104;116;116;112;58;47;47;104;47;120] 4 7 7 8 HI_Domain None 8 None None))
+  /\ known_c04_7 None [97;58;47;47;117;64;104;58;56;47;46;46;47;112] = false
+  /\ C04_PathTotal.seg_inv 5 6 [97;58;47;47;104;47] 6.
+Proof.
+  split; [exists (mkUrl [104;116;116;112;58;47;47;104;47;97;47;98;63;113] 4 7 7 8 HI_Domain None 8 (Some 12) None);
+          vm_compute; repeat split; reflexivity|].
+  split; [vm_compute; reflexivity|]. unfold C04_PathTotal.seg_inv. vm_compute. repeat split; try discriminate; reflexivity.
+Qed.
+
+(* C04_parse_no_panic_partial3: a parsed file base joined with "../x" is outside known_c04_7b (and parses);
+   the base of finding F-C04-7 joined with the same reference is inside; the same text parsed without a
+   base is outside *)
+Example C04_partial3_premises_hold :
+  let fb := mkUrl [102;105;108;101;58;47;47;47;97;47;98] 4 7 7 7 HI_None None 7 None None in
+  let b7 := mkUrl w_c04_7_base 4 7 7 7 HI_None None 7 None None in
+  parse_url true toy_hp toy_hp toy_hd None None [102;105;108;101;58;47;47;47;97;47;98] = POk fb
+  /\ C04_ParseTotal.base_ok fb = true /\ C04_ParseFile.known_c04_7b (Some fb) w_c04_7_ref = false
+  /\ parse_url true toy_hp toy_hp toy_hd None (Some fb) w_c04_7_ref
+     = POk (mkUrl [102;105;108;101;58;47;47;47;120] 4 7 7 7 HI_None None 7 None None)
+  /\ C04_ParseTotal.base_ok b7 = true /\ C04_ParseFile.known_c04_7b (Some b7) w_c04_7_ref = true
+  /\ C04_ParseFile.known_c04_7b None (w_c04_7_base ++ [47] ++ w_c04_7_ref) = false
+  /\ C04_PathFile.path_inv 7 7 [102;105;108;101;58;47;47;47;67;58;47;120] 9.
+Proof.
+  cbv zeta. repeat (split; [vm_compute; reflexivity|]).
+  right. unfold C04_PathFile.bad_seg. split; [lia|]. split; [lia|]. split; [vm_compute; discriminate|].
+  exists 58. repeat split; try discriminate; reflexivity.
+Qed.
